@@ -61,6 +61,13 @@ type GhostField struct {
 	Sort  string
 }
 
+type Macro struct {
+	Name   string
+	Params []string
+	Body   CExpr
+	Src    string
+}
+
 type PkgSpec struct {
 	PkgPath string
 	Funcs   map[string]*FuncSpec
@@ -68,12 +75,13 @@ type PkgSpec struct {
 	Ghosts  []GhostField
 	Binds   map[string]string
 	Tables  map[string]string // global name -> spec function
+	Macros  map[string]*Macro
 	Files   []string
 }
 
 var clauseKeywords = map[string]bool{
 	"use": true, "func": true, "props": true, "requires": true, "ensures": true, "modifies": true,
-	"loop": true, "invariant": true, "decreases": true, "flags": true, "ghost": true, "assert": true, "bind": true, "table": true,
+	"loop": true, "invariant": true, "decreases": true, "flags": true, "ghost": true, "assert": true, "bind": true, "table": true, "define": true,
 }
 
 func splitLabel(kw string) (string, string) {
@@ -96,7 +104,11 @@ func parseContractFile(path, pkgPath string, ps *PkgSpec) error {
 	var lastClause *Clause
 	var fileUses []string
 	lineNo := 0
-	type pending struct{ cl *Clause }
+	type macroClause struct {
+		m  *Macro
+		cl *Clause
+	}
+	var macroClauses []macroClause
 	var all []*Clause
 	for sc.Scan() {
 		lineNo++
@@ -136,6 +148,27 @@ func parseContractFile(path, pkgPath string, ps *PkgSpec) error {
 			} else {
 				return fmt.Errorf("%s:%d: bad ghost declaration", path, lineNo)
 			}
+		case "define":
+			// define name(a, b) = expr   (may continue on following lines)
+			i := strings.Index(rest, "=")
+			if i < 0 {
+				return fmt.Errorf("%s:%d: define needs '='", path, lineNo)
+			}
+			head := strings.TrimSpace(rest[:i])
+			j := strings.Index(head, "(")
+			if j < 0 || !strings.HasSuffix(head, ")") {
+				return fmt.Errorf("%s:%d: define name(params) = expr", path, lineNo)
+			}
+			m := &Macro{Name: head[:j]}
+			for _, pn := range strings.Split(head[j+1:len(head)-1], ",") {
+				if pn = strings.TrimSpace(pn); pn != "" {
+					m.Params = append(m.Params, pn)
+				}
+			}
+			cl := &Clause{Src: strings.TrimSpace(rest[i+1:]), File: path, Line: lineNo}
+			lastClause = cl
+			macroClauses = append(macroClauses, macroClause{m, cl})
+			ps.Macros[m.Name] = m
 		case "table":
 			fs := strings.Fields(rest)
 			if len(fs) != 2 {
@@ -234,6 +267,14 @@ func parseContractFile(path, pkgPath string, ps *PkgSpec) error {
 		}
 		cl.Expr = e
 	}
+	for _, mc := range macroClauses {
+		e, err := parseCExpr(mc.cl.Src)
+		if err != nil {
+			return fmt.Errorf("%s:%d: %v", mc.cl.File, mc.cl.Line, err)
+		}
+		mc.m.Body = e
+		mc.m.Src = mc.cl.Src
+	}
 	// program-point asserts: "at call X#k :: e"
 	for _, fs := range ps.Funcs {
 		for _, a := range fs.Asserts {
@@ -287,7 +328,7 @@ func splitTop(s string) []string {
 }
 
 func loadPkgSpecs(dir, pkgPath string) (*PkgSpec, error) {
-	ps := &PkgSpec{PkgPath: pkgPath, Funcs: map[string]*FuncSpec{}, Binds: map[string]string{}, Tables: map[string]string{}}
+	ps := &PkgSpec{PkgPath: pkgPath, Funcs: map[string]*FuncSpec{}, Binds: map[string]string{}, Tables: map[string]string{}, Macros: map[string]*Macro{}}
 	files, _ := filepath.Glob(filepath.Join(dir, "*_contracts_verif.go"))
 	sort.Strings(files)
 	for _, f := range files {
@@ -299,7 +340,7 @@ func loadPkgSpecs(dir, pkgPath string) (*PkgSpec, error) {
 }
 
 func loadTrustedSpecs(dir string) (*PkgSpec, error) {
-	ps := &PkgSpec{PkgPath: "", Funcs: map[string]*FuncSpec{}, Binds: map[string]string{}, Tables: map[string]string{}}
+	ps := &PkgSpec{PkgPath: "", Funcs: map[string]*FuncSpec{}, Binds: map[string]string{}, Tables: map[string]string{}, Macros: map[string]*Macro{}}
 	files, _ := filepath.Glob(filepath.Join(dir, "*.spec"))
 	sort.Strings(files)
 	for _, f := range files {
